@@ -7,7 +7,7 @@ MANIFEST = dict(
    note="Trusted: Lean kernel; axioms propext/Classical.choice/Quot.sound only; the Go harness, token codec and comparer. The container model is a hand transcription validated on generated cases, not for all inputs; Go representations outside the generated set (struct inputs to Object, map inputs to Struct, numeric-string record keys, Default/Prefault/Transform on the container itself, struct Partial, loose records over enum keys) are not modelled. Result values are not compared (verdicts only). Known deviations of today's code are listed in known-findings.txt (nil-like inputs never reach union/xor/intersection/lazy members; typed nil slices/maps rejected; catchall ignored in strip mode; intersection drops one-sided unrecognized_keys; lazy never asks targets whose Parse result type is unsupported; Slice/Array never ask a member that is not a core.ZodSchema (pipes were, until ff6dceb); Map/Set/Record/Struct never ask a member without a method named Parse). Which members a container can call is mirrored in the harness from the type assertions / reflective look-ups of types/*.go (cx.Asked). Record key schemas that rewrite the key are not generated.",
    design="DESIGN.md §5 C02; notes/C02.md")
 
-MODULES = ["Gozod.Proofs.C02"]
+MODULES = ["Gozod.Proofs.C02", "Gozod.Proofs.C02Du"]
 THEOREMS = ["Gozod.C02." + t for t in [
     "c02_slice", "c02_array", "posOK_iff", "c02_tuple", "c02_map", "c02_set", "c02_record", "c02_object",
     "c02_struct", "c02_union", "c02_xor", "c02_inter_partial", "c02_du", "c02_du_missing", "c02_lazy_partial",
@@ -15,6 +15,9 @@ THEOREMS = ["Gozod.C02." + t for t in [
     "c02_union_full_false", "c02_inter_full_false", "c02_lazy_full_false", "c02_lazy_nil_false",
     "c02_nilslice_false", "c02_object_catchall_false",
     "seen_nil", "acc_seen", "c02_slice_seen", "c02_callable_partial", "c02_unasked_member_false", "c02_array_rest_dropped",
+    # round 4: discriminated union over its option list (index construction, lookup THEN fallback)
+    "discInsert_some", "discBuildFrom_some", "buildDiscMap_some", "buildDiscMap_none", "lookup_entries",
+    "c02_du_law", "parseDUDecl_run", "c02_du_illformed", "c02_du_selects_one",
 ]]
 
 def split(line):
@@ -33,6 +36,10 @@ def key(op, impl, M, S):
     for t in c:
         if t.startswith("reason="): reason = t[7:]
     if impl.startswith("panic:"): return "%s:%s" % (impl, kind)
+    if " dm=" in impl:      # discriminated union: the observation also carries the index the constructor built
+        v, dm = impl.split(" dm=", 1)
+        if (" dm=" + dm) not in (S or ""): return "discriminator-index-differs:%s:impl=%s" % (kind, v)
+        impl = v
     return "%s:%s:impl=%s" % (reason, kind, impl)
 
 def describe(op):
